@@ -124,6 +124,8 @@ def build(seed, tier):
             ops.append({'op': 'verify', 'plant': ro.random() < 0.5, 'at': ro.randint(0, 5)})
         elif c < 0.62:
             ops.append({'op': 'tifa', 'plant': ro.random() < 0.6, 'at': ro.randint(0, 5)})
+        elif c < 0.66:
+            ops.append({'op': 'check_exists', 'n': ro.randint(0, 8)})
         elif c < 0.82:
             ops.append({'op': 'run', 'enumerate': True, 'exc': rf.choice(faults.ORDINARY + ['SystemExit'])})
         elif c < 0.92:
@@ -270,6 +272,10 @@ def execute(spec):
                     fo['fired_line'] = fired[0]['line'] if fired else None
                     fo.pop('main_code', None)
                     o['faulted'].append(fo)
+            elif kind == 'check_exists':
+                from pedal.source import check_section_exists
+                guarded(o, lambda: check_section_exists(op['n']))
+                o['source_success'] = MAIN_REPORT[TOOL_NAME].get('success')
             elif kind == 'call':
                 from pedal.sandbox.commands import call
                 base = {'op': 'call'}
@@ -419,6 +425,16 @@ def judge(spec, res):
                     viol('runtime-traceback-line', 'exception raised on original line %d; traceback text says line %d' % (
                         want_line, f['tb_text_lines'][-1]), '/section=%s' % where)
                     return vs
+        if kind == 'check_exists' and not stopped:
+            # "are there at least n sections": feedback exactly when there are fewer (the tool stays silent once a
+            # syntax error has been found in the current code)
+            said = any(f['label'] == 'incorrect_number_of_sections' for f in o['new_feedback'])
+            if said and op['n'] <= M:
+                viol('section-count-feedback-although-enough', 'asked for %d of %d sections and got incorrect_number_of_sections' % (op['n'], M))
+                return vs
+            if not said and op['n'] > M and o.get('source_success') is not False:
+                viol('section-count-feedback-missing', 'asked for %d sections, the file has %d, no feedback' % (op['n'], M))
+                return vs
         if kind == 'call' and in_section:
             own = spec.get('funcs', {}).get(str(k)) if indep else None
             for fo in o.get('faulted', []):
